@@ -6,7 +6,7 @@ use crate::gen;
 use iref::{iri, uri};
 use std::str::FromStr;
 
-pub const RULE: &str = "cases: grammar-derived valid values and 1-3 edit mutants (about half invalid) for each of the 20 validated types, plus JSON documents with escapes (\\u00e9, \\/, surrogate pairs), non-strings and byte arrays. Outward routes (Display, Debug, as_str/as_bytes, Deref, into_string/into_bytes, to_owned, Clone, AsRef, From, serde_json::to_string) must give exactly the parsed text; == with str/&str/String/[u8] must be plain text equality (probed with the text itself and with a different text); inward routes (FromStr, TryFrom, from_vec, serde_json::{from_str, from_slice} into borrowed and owned forms) must accept exactly what the RFC model accepts and keep the text. Non-trivial = every (type, input) on which a value was obtained or a route rejected; distinct by (type, input)";
+pub const RULE: &str = "cases: grammar-derived valid values and 1-3 edit mutants (about half invalid) for each of the 20 validated types, plus JSON documents with escapes (\\u00e9, \\/, surrogate pairs), non-strings and byte arrays. Outward routes (Display, Debug, as_str/as_bytes, Deref, into_string/into_bytes, to_owned, Clone, AsRef, From, serde_json::to_string) must give exactly the parsed text; == with str/&str/String/[u8] must be plain text equality (probed with the text itself and with a different text); inward routes (FromStr, TryFrom, from_vec, serde_json::{from_str, from_slice} into borrowed and owned forms) must accept exactly what the RFC model accepts and keep the text. Also: the case-flipped text, the text minus its last character, byte arrays [u8; N] of the text's length / shorter (strict prefix) / longer, values that borrow a prefix or suffix of the compared text (aliasing), into_pct_string/as_pct_str as routes out, code points with a reputation (BOM, special spaces, separators) in leading/inner/trailing position. Non-trivial = every (type, input) on which a value was obtained or a route rejected; distinct by (type, input)";
 
 pub const MANDATORY: &[&str] = &["out:Iri", "out:UriRef", "out:iri::Path", "out:uri::Segment", "out:Scheme", "out:Port", "in-reject:Iri", "in-reject:uri::Host", "serde:owned-ok", "serde:borrowed-ok", "serde:escaped", "serde:rejected-invalid", "serde:rejected-non-string"];
 
